@@ -561,6 +561,52 @@ func c07InsertGuards(c *Ctx) {
 			pk = true
 		}
 	}
+	if !nn && gk != nil {
+		// the key comes out of a helper split out of Insert (key, err := c.insertKey(…)): the helper
+		// rejects a nil value with ErrS3DBConstraintNotNull and otherwise returns that very value
+		if ex, ok := an.Unwrap(gk).(*ssa.Extract); ok && ex.Index == 0 {
+			if cl, ok := ex.Tuple.(*ssa.Call); ok {
+				if h := cl.Call.StaticCallee(); h != nil && c.Scope(fn).Contains(h) {
+					if okS, _ := an.SuccessDominates(cl, get); okS {
+						var rejected []ssa.Value
+						for _, b := range h.Blocks {
+							ret, isRet := b.Instrs[len(b.Instrs)-1].(*ssa.Return)
+							if !isRet || !globalLoad(an.RetErr(ret), "ErrS3DBConstraintNotNull") {
+								continue
+							}
+							for _, hb := range h.Blocks {
+								iff, isIf := hb.Instrs[len(hb.Instrs)-1].(*ssa.If)
+								if !isIf {
+									continue
+								}
+								if v, isNE, isNil := nilTestedValue(iff); isNil {
+									si := 0
+									if isNE {
+										si = 1
+									}
+									if an.OnlyVia(hb, si, b) || hb.Succs[si] == b {
+										rejected = append(rejected, v)
+									}
+								}
+							}
+						}
+						for _, b := range h.Blocks {
+							ret, isRet := b.Instrs[len(b.Instrs)-1].(*ssa.Return)
+							if !isRet || !an.IsNilConst(an.RetErr(ret)) {
+								continue
+							}
+							rv := an.RetVal(ret, 0)
+							for _, v := range rejected {
+								if an.SameValue(rv, v) || phiHas(rv, v) {
+									nn = true
+								}
+							}
+						}
+					}
+				}
+			}
+		}
+	}
 	c.R.Cond(nn, rule, name+": NULL key rejected", c.P.Pos(fn.Pos()), "a nil key from the statement returns ErrS3DBConstraintNotNull before any lookup or write", "no path rejects a NULL key with ErrS3DBConstraintNotNull")
 	// live-row edge: Deleted == false on the fetched row, under ok == true
 	liveBlocksSet := false
@@ -687,6 +733,41 @@ func nonNilAt(v ssa.Value, e an.Edge, depth int) (bool, string) {
 			}
 		}
 		return true, "every incoming value is non-nil on its path"
+	case *ssa.Extract:
+		// value, err := helper(…): non-nil whenever err is nil, if the helper says so on every
+		// successful return and the use runs only after the call succeeded
+		cl, ok := x.Tuple.(*ssa.Call)
+		if !ok || x.Index != 0 {
+			break
+		}
+		cal := cl.Call.StaticCallee()
+		if cal == nil || len(cal.Blocks) == 0 || !strings.HasPrefix(an.PkgPathOf(cal), core.ModPath) {
+			break
+		}
+		res := cal.Signature.Results()
+		if res.Len() != 2 || !an.IsErrorType(res.At(1).Type()) {
+			break
+		}
+		target := e.From.Instrs[0]
+		if e.To != nil {
+			target = e.To.Instrs[0]
+		}
+		if okS, _ := an.SuccessDominates(cl, target); !okS && cl.Block() != e.From {
+			break
+		}
+		if cl.Block() == e.From {
+			break // the error is not yet tested in the block of the call itself
+		}
+		for _, b := range cal.Blocks {
+			ret, isRet := b.Instrs[len(b.Instrs)-1].(*ssa.Return)
+			if !isRet || !an.IsNilConst(an.RetErr(ret)) {
+				continue
+			}
+			if okR, why := nonNilAt(an.RetVal(ret, 0), an.Edge{From: b}, depth+1); !okR {
+				return false, "helper " + cal.Name() + " can return a nil value without an error (" + why + ")"
+			}
+		}
+		return true, "result of " + cal.Name() + ", which returns a non-nil value whenever it returns no error"
 	}
 	return false, "no dominating nil test of " + describeArg(v)
 }
